@@ -72,7 +72,10 @@ func wGen(t *rapid.T, o wOpts) mgen.Model {
 		pkg := rapid.SampledFrom(pkgPool).Draw(t, "pkg")
 		name := fmt.Sprintf("C%d", i)
 		if quotes && rapid.IntRange(0, 3).Draw(t, "q") == 3 {
-			name = name + "\"q"
+			// a call on a string literal is recorded with the literal's text as receiver: quotes, backslashes
+			// (`"\\d+".matches(x)`), tabs and letters outside ASCII; never a backslash in front of a quote or
+			// at the end (what that means inside a quoted DOT ID is not settled)
+			name = name + rapid.SampledFrom([]string{"\"q", "\"q", "\"\\d+\"", "a\\\\b", "\tq", "\"éü\"", "\\w"}).Draw(t, "literalPiece")
 		}
 		if names == 5 && rapid.IntRange(0, 2).Draw(t, "dollar") == 2 {
 			name = name + "$1"
@@ -108,7 +111,7 @@ func wGen(t *rapid.T, o wOpts) mgen.Model {
 				mn = mn + "$"
 			}
 			if quotes && rapid.IntRange(0, 5).Draw(t, "q") == 5 {
-				mn = mn + "\"x"
+				mn = mn + rapid.SampledFrom([]string{"\"x", "\"x", "\\n1", "\tx", "\\d+x"}).Draw(t, "literalPieceM")
 			}
 			if used[mn] && !overloads {
 				continue
